@@ -27,6 +27,8 @@ ANT = "chan/AntGain.tla"
 MODELS = ["general", "3gpp1", "freespace", "metis", "hata"]
 DEVS = ["FcRejectKeepsValue", "NSetterKeepsC", "FcSetterKeepsC", "ClampArrayOnly", "HataRejectAssigns", "ShadowAfterPolicy"]
 FID_FC = "C13-freespace-fc-reject-not-atomic"
+FID_I8 = "C13-int8-distances-half-precision"
+TAG_I8 = "[8-bit integer distances]"
 TOL = 1e-9
 
 
@@ -307,29 +309,38 @@ def variants(a):
     return out
 
 
-def sweep(fn, args, kind0, x0, rel=False):
+def sweep(fn, args, kind0, x0, rel=False, dist8=True):
     """AnyDtypeSameValue: repeat the array query fn(*args) with every variant of every ndarray argument (one argument
     varied at a time); the outcome must be the one of the float64 call (already compared with the exact value)."""
+    first8 = None
+
+    def one(i, a, label, v, f):
+        aa = list(args)
+        aa[i] = v
+        k, x = pure_outcome(fn, *aa)
+        if k == "impure":
+            return f"argument {i} as {label}: {x}"
+        if k != kind0:
+            return f"argument {i} as {label}: {'raised ' + str(x) if k != 'val' else 'returned ' + repr(x)}, as float64: {kind0}"
+        if k == "val":
+            x = np.asarray(x, dtype=float)
+            w = np.asarray(x0, dtype=float)
+            tol = TOL * f * (np.abs(w) if rel else np.maximum(1.0, np.abs(w)))
+            if x.shape != w.shape or not np.all(np.abs(x - w) <= tol):
+                j = int(np.argmax(np.abs(x - w) - tol)) if x.shape == w.shape and x.size else 0
+                return (f"argument {i} as {label} ({v.ravel()[j]!r}): returned {x.ravel()[j] if x.size else x!r}, "
+                        f"as float64 ({a.ravel()[j]!r}): {w.ravel()[j] if w.size else w!r}")
+        return None
     for i, a in enumerate(args):
         if not isinstance(a, np.ndarray):
             continue
         for label, v, f in variants(a):
-            aa = list(args)
-            aa[i] = v
-            k, x = pure_outcome(fn, *aa)
-            if k == "impure":
-                return f"argument {i} as {label}: {x}"
-            if k != kind0:
-                return f"argument {i} as {label}: {'raised ' + str(x) if k != 'val' else 'returned ' + repr(x)}, as float64: {kind0}"
-            if k == "val":
-                x = np.asarray(x, dtype=float)
-                w = np.asarray(x0, dtype=float)
-                tol = TOL * f * (np.abs(w) if rel else np.maximum(1.0, np.abs(w)))
-                if x.shape != w.shape or not np.all(np.abs(x - w) <= tol):
-                    j = int(np.argmax(np.abs(x - w) - tol)) if x.shape == w.shape and x.size else 0
-                    return (f"argument {i} as {label} ({v.ravel()[j]!r}): returned {x.ravel()[j] if x.size else x!r}, "
-                            f"as float64 ({a.ravel()[j]!r}): {w.ravel()[j] if w.size else w!r}")
-    return None
+            r = one(i, a, label, v, f)
+            if r and i == 0 and dist8 and label in ("int8", "uint8"):
+                first8 = first8 or f"{TAG_I8} {r}"  # signature of a listed finding; keep looking for anything else
+            elif r:
+                return r
+    return first8
 
 
 def check_elem(x, exp, model, lin=False):
@@ -660,15 +671,29 @@ def run_edges(model, edges, qs, all_states=False):
                     if r:
                         viol.append({"step": i, "op": q["op"], "arg": {k: q.get(k) for k in ("k", "w", "ks", "ws")},
                                      "what": f"in state {short(e['post'])} after {[x['op'] for x in edges[:i + 1]]}: {q['op']}: {r}"})
+                        if TAG_I8 in r:
+                            viol[-1]["finding"] = FID_I8
+                            continue
                         break
                     qc += 1
-                if not viol and behaviour(model, o) != b0:
+                if not [v for v in viol if "finding" not in v] and behaviour(model, o) != b0:
                     viol.append({"step": i, "op": "queries", "arg": None,
                                  "what": f"QueryIsPure: in state {short(e['post'])} the object answers differently after the queries: "
                                          f"{b0} -> {behaviour(model, o)}"})
                 if viol and "finding" not in viol[-1]:
                     break
     return okc, qc, viol
+
+
+def pick(viol):
+    """what is reported of one path: the first hit of every listed-finding signature and the first other violation"""
+    out, seen = [], set()
+    for v in viol:
+        key = v.get("finding", "")
+        if key not in seen:
+            seen.add(key)
+            out.append(v)
+    return out
 
 
 def short(p):
@@ -714,7 +739,7 @@ def finish_paths(ctx, model, g, qs, paths, ncover, res=None):
     for idx, (job, (okc, qc, viol)) in enumerate(zip(jobs, res)):
         ctx.ok(n=okc + qc)
         ctx.trace_done()
-        for v in viol[:2]:
+        for v in pick(viol):
             case = {"model": model, "edges": g.path_edges(job[1]), "failing": v,
                     "queries": {k: qs.get(k, []) for k in {graph.key(e["post"]) for e in g.path_edges(job[1])}}}
             if v.get("finding"):
@@ -910,7 +935,7 @@ def replay(ctx, data):
         return
     okc, qc, viol = run_edges(c["model"], c["edges"], c["queries"])
     ctx.ok(n=okc + qc)
-    for v in viol[:2]:
+    for v in pick(viol):
         if v.get("finding"):
             ctx.finding(v["finding"], f"{c['model']}: {v['what']}", c)
         else:
